@@ -4396,7 +4396,10 @@ class ParseCtx:
         # check if in bound argument stack
         for entry in reversed(self.bound_argument_stack):
             if (context, name) in entry:
-                return entry[(context, name)]
+                bound = entry[(context, name)]
+                if context == MacroArgumentKind.EXPR and getattr(bound, "data", None) == "identifier_const" and bound.children[0].value == name:
+                    break # the argument was spelled with the parameter's own name: it refers to something global, not to itself
+                return bound
             if any(bound_name == name for _, bound_name in entry):
                 break # an argument of another kind with this name in an inner macro hides the outer macros' arguments
         # otherwise, try and find globally 
